@@ -157,7 +157,7 @@ def run(prop, tier=None, replay=None):
     for i, b in enumerate(behs):
         src, tree = render(b)
         cases.append({"id": i, "src": src, "tree": tree, "beh": b})
-    res = pmap(work, [{"id": c["id"], "src": c["src"]} for c in cases], timeout=120)
+    res = pmap(work, [{"id": c["id"], "src": c["src"]} for c in cases], timeout=120, batch=16)
     chk.phase("replay")
     for c, r in zip(cases, res):
         chk.count()
